@@ -15,6 +15,6 @@ CONSTANTS
   MaxOps = 0
 VIEW TraceView
 CONSTRAINT HighWater
-INVARIANTS DbIsPrefix DbNotAheadOfSync DbNotAheadOfFile TxMirrorsBinlog TxMirrorsRead RecoveredAll RecoveredExact AckedDurable AckedRecovered FailedNowhere ViewWithinBinlog ReadWithinBinlog CommitInfoSound DiskBinlogSound CleanCloseComplete
+INVARIANTS DbIsPrefix DbNotAheadOfSync DbNotAheadOfFile TxMirrorsBinlog TxMirrorsRead TxOffIsBoundary RecoveredAll RecoveredExact AckedDurable AckedRecovered FailedNowhere ViewWithinBinlog ReadWithinBinlog CommitInfoSound DiskBinlogSound CleanCloseComplete
 POSTCONDITION TraceAccepted
 CHECK_DEADLOCK FALSE
